@@ -13,6 +13,10 @@ TABLES = drv("tables", ["props/tables.cpp"])
 SPKI = drv("spki", ["props/spki.cpp"])
 IPCONV = drv("ipconv", ["props/ipconv.cpp"])
 ENUMNAMES = drv("enumnames", ["props/enumnames.cpp"])
+WRAPS = " -Wl,--wrap=lrtr_get_monotonic_time,--wrap=sleep,--wrap=lrtr_dbg"
+CONV = drv("conv", ["props/conv.cpp", "engine/convsim.cpp"], ldflags="-lrapidcheck" + WRAPS,
+           deps=["engine/convsim.hpp", "engine/convsim_model.inc", "engine/convsim_mock.inc", "engine/convsim_run.inc", "engine/judge.hpp",
+                 "engine/cache.hpp", "engine/script.hpp", "engine/wire.hpp"])
 
 ENGINES = [
     {"name": "rapidcheck-drivers", "path": "props/", "serves_properties": ["C01", "C02", "C09", "C10", "C19", "C20"],
@@ -130,5 +134,82 @@ CHECKS = {
         "stages": [{"driver": ENUMNAMES,
                     "quick": {"procs": 2, "rc": (600, 100)},
                     "thorough": {"procs": 8, "rc": (5000, 100), "timeout": 3600}}],
+    },
+    "C03": {
+        "level": "exploration",
+        "rule": "TODO",
+        "assumptions": [],
+        "floor": {"quick": 50, "thorough": 500},
+        "technique": "model-based conversation testing",
+        "level_text": "TODO", "level_note": "TODO",
+        "stages": [{"driver": CONV,
+                    "quick": {"procs": 8, "rc": (600, 100)},
+                    "thorough": {"procs": 16, "rc": (10000, 100), "timeout": 7200}}],
+    },
+    "C05": {
+        "level": "exploration",
+        "rule": "TODO",
+        "assumptions": [],
+        "floor": {"quick": 50, "thorough": 500},
+        "technique": "model-based conversation testing",
+        "level_text": "TODO", "level_note": "TODO",
+        "stages": [{"driver": CONV,
+                    "quick": {"procs": 8, "rc": (600, 100)},
+                    "thorough": {"procs": 16, "rc": (10000, 100), "timeout": 7200}}],
+    },
+    "C07": {
+        "level": "exploration",
+        "rule": "TODO",
+        "assumptions": [],
+        "floor": {"quick": 50, "thorough": 500},
+        "technique": "model-based conversation testing",
+        "level_text": "TODO", "level_note": "TODO",
+        "stages": [{"driver": CONV,
+                    "quick": {"procs": 8, "rc": (600, 100)},
+                    "thorough": {"procs": 16, "rc": (10000, 100), "timeout": 7200}}],
+    },
+    "C08": {
+        "level": "exploration",
+        "rule": "TODO",
+        "assumptions": [],
+        "floor": {"quick": 50, "thorough": 500},
+        "technique": "model-based conversation testing",
+        "level_text": "TODO", "level_note": "TODO",
+        "stages": [{"driver": CONV,
+                    "quick": {"procs": 8, "rc": (600, 100)},
+                    "thorough": {"procs": 16, "rc": (10000, 100), "timeout": 7200}}],
+    },
+    "C13": {
+        "level": "exploration",
+        "rule": "TODO",
+        "assumptions": [],
+        "floor": {"quick": 50, "thorough": 500},
+        "technique": "model-based conversation testing",
+        "level_text": "TODO", "level_note": "TODO",
+        "stages": [{"driver": CONV,
+                    "quick": {"procs": 8, "rc": (600, 100)},
+                    "thorough": {"procs": 16, "rc": (10000, 100), "timeout": 7200}}],
+    },
+    "C14": {
+        "level": "exploration",
+        "rule": "TODO",
+        "assumptions": [],
+        "floor": {"quick": 50, "thorough": 500},
+        "technique": "model-based conversation testing",
+        "level_text": "TODO", "level_note": "TODO",
+        "stages": [{"driver": CONV,
+                    "quick": {"procs": 8, "rc": (600, 100)},
+                    "thorough": {"procs": 16, "rc": (10000, 100), "timeout": 7200}}],
+    },
+    "C17": {
+        "level": "exploration",
+        "rule": "TODO",
+        "assumptions": [],
+        "floor": {"quick": 50, "thorough": 500},
+        "technique": "model-based conversation testing",
+        "level_text": "TODO", "level_note": "TODO",
+        "stages": [{"driver": CONV,
+                    "quick": {"procs": 8, "rc": (600, 100)},
+                    "thorough": {"procs": 16, "rc": (10000, 100), "timeout": 7200}}],
     },
 }
